@@ -26,6 +26,10 @@ class CCompositionMCNP:
     material of the block DATA
     '''
 
+    # keywords of the M card that take more than one value (MCNP6: Cauchy and
+    # Sellmeier coefficients of the refractive index)
+    KEYWORD_N_VALUES = {'refc': 4, 'refs': 6}
+
     def __init__(self, l_materialCompositionParameters):
         '''
         Constructor
@@ -38,18 +42,18 @@ class CCompositionMCNP:
             isotope = l_materialCompositionParameters[i]
             if '=' in isotope or isotope[:1].isalpha():
                 # this is a keyword (GAS, ESTEP, NLIB, ...): skip it and its
-                # value. MCNP treats the equals sign as a blank, so the entry
-                # may be spelled `key=value`, `key= value`, `key =value`,
+                # value(s). MCNP treats the equals sign as a blank, so the
+                # entry may be spelled `key=value`, `key= value`, `key =value`,
                 # `key = value` or `key value`
                 tokens = l_materialCompositionParameters
-                if isotope.endswith('='):
-                    i += 2
-                elif '=' in isotope:
+                name, _, first_value = isotope.partition('=')
+                n_values = self.KEYWORD_N_VALUES.get(name.lower(), 1)
+                i += 1
+                if first_value:
+                    n_values -= 1
+                elif i < len(tokens) and tokens[i] == '=':
                     i += 1
-                elif i + 1 < len(tokens) and tokens[i + 1] == '=':
-                    i += 3
-                else:
-                    i += 2
+                i += n_values
                 continue
             if "." in isotope:
                 isotope = isotope.split(".")[0]
